@@ -198,6 +198,26 @@ def eq_table(ctx, model, ci, fn, cons):
                f'{cons} [{label}]: a == b gives {r1!r}, b == a gives {r2!r}' + (f', expected {want}' if want is not None else '') +
                ': equality must be a boolean, never raise, be the same in both directions and hold for identical objects',
                file=ci.file, line=fn.lineno)
+    # a field that equality ignores (objects differing only there compare equal) must not be something a printer writes: equal objects print the same SQL
+    ignored = [f for f in init_fields if run(mk(), mk(change=f)) is True]
+    if ignored:
+        printers = []
+        for f_ in ctx.src.py_files('mindsdb_sql'):
+            in_render = f_.endswith('render/sqlalchemy_render.py')
+            if not (in_render or '/parser/' in f_):
+                continue
+            for fn_ in [x for x in ast.walk(ctx.src.tree(f_)) if isinstance(x, ast.FunctionDef)]:
+                if in_render or fn_.name in ('get_string', 'to_string', 'to_tree', '__str__', '__repr__'):
+                    printers.append((f_, fn_))
+        for f in ignored:
+            hits = [(f_, fn_, x) for f_, fn_ in printers for x in ast.walk(fn_)
+                    if isinstance(x, ast.Attribute) and x.attr == f and isinstance(x.ctx, ast.Load) and not (isinstance(x.value, ast.Name) and x.value.id == 'self' and f_ != ci.file)]
+            # a read through `self` counts only in the class's own file; reads through another name (`col.nullable`) count everywhere
+            ctx.ob('C18.eq-implies-same-print', f'{ci.name}.{f}:ignored-by-eq', not hits,
+                   (f'{cons} ignores the field `{f}` (two objects that differ only there compare equal), but {hits[0][1].name} in {hits[0][0]} writes it out (`{norm(hits[0][2])}`): '
+                    f'equal objects then print different SQL, and steps / plans that hold them compare equal although the statements differ') if hits else '',
+                   file=ci.file, line=fn.lineno, witness=f'{ci.name}(..., {f}=a) == {ci.name}(..., {f}=b)')
+            ctx.count('eq_ignored_fields')
     # transitivity over all the objects built above
     objs = []
     for label, a, b, want in cases:
@@ -301,6 +321,69 @@ def check_uniform_attributes(ctx, model):
     ctx.floor('uniform_constructors', 20)
 
 
+def check_plan_histories(ctx, model):
+    """`two plans built from equal steps compare equal`: QueryPlan's own constructor / add_step / __eq__ interpreted (sa/interp.py) on plans that hold equal steps
+    but were built along different histories - steps handed to the constructor, steps added one by one, and (as the join planner does for a partitioned model
+    join) a container step that is added empty and receives its sub-steps afterwards.  Whatever the plan records while steps are added, equality is a function
+    of the steps only."""
+    from ..interp import Interp, Obj, Raised, Env
+    lst = model.classes.get('QueryPlan', [])
+    ctx.need(len(lst) == 1, 'class QueryPlan not found')
+    ci = lst[0]
+    init, add, eq = ci.methods.get('__init__'), ci.methods.get('add_step'), ci.methods.get('__eq__')
+    ctx.need(init is not None and add is not None and eq is not None, 'QueryPlan.__init__ / add_step / __eq__ not found')
+    isa = {'QueryPlan': set(), 'FetchDataframeStep': {'PlanStep'}, 'MapReduceStep': {'PlanStep'}, 'ApplyPredictorStep': {'PlanStep'}, 'JoinStep': {'PlanStep'},
+           'Result': set(), 'Select': {'ASTNode'}, 'Parameter': {'ASTNode'}}
+    methods = {}
+
+    def interp():
+        return Interp.for_file(ctx.src, ci.file, isa, {'get_query_params': lambda it, q: [], 'utils.get_query_params': lambda it, q: []}, methods=methods)
+
+    def steps(built):
+        s0 = Obj('FetchDataframeStep', step_num=None, integration='int1', query=Obj('Select', _q=0), result_data=None, references=[])
+        sub = [Obj('ApplyPredictorStep', step_num='1_0', dataframe=Obj('Result', step_num=0), result_data=None, references=[]),
+               Obj('JoinStep', step_num='1_1', left=Obj('Result', step_num=0), right=Obj('Result', step_num='1_0'), result_data=None, references=[])]
+        cont = Obj('MapReduceStep', step_num=None, values=Obj('Result', step_num=0), step=(list(sub) if built else []), reduce='union', partition=10, result_data=None,
+                   references=[])
+        s2 = Obj('JoinStep', step_num=None, left=Obj('Result', step_num=0), right=Obj('Result', step_num=1), result_data=None, references=[])
+        return s0, cont, s2, sub
+
+    def build(history):
+        it = interp()
+        plan = Obj('QueryPlan')
+        s0, cont, s2, sub = steps(built=history != 'container filled after it was added')
+        if history == 'steps handed to the constructor':
+            it.call_function(init, [plan], {'steps': [s0, cont, s2]}, Env())
+        else:
+            it.call_function(init, [plan], {}, Env())
+            it.call_function(add, [plan, s0], {}, Env())
+            it.call_function(add, [plan, cont], {}, Env())
+            if history == 'container filled after it was added':
+                cont.attrs['step'].extend(sub)
+            it.call_function(add, [plan, s2], {}, Env())
+        return plan
+    histories = ('steps handed to the constructor', 'steps added one by one', 'container filled after it was added')
+    try:
+        plans = {h: build(h) for h in histories}
+    except Raised as r:
+        ctx.ob('C18.plan-histories', 'construction', False, f'building a plan of three steps raises {r.exc_name}', file=ci.file, line=add.lineno)
+        return
+    n = 0
+    for h1 in histories:
+        for h2 in histories:
+            try:
+                r = interp().call_function(eq, [plans[h1], plans[h2]], {}, Env())
+            except Raised as e_:
+                r = f'<raises {e_.exc_name}>'
+            n += 1
+            ctx.ob('C18.plan-histories', f'{h1} == {h2}', r is True,
+                   f'two plans that hold equal steps ({h1} / {h2}) compare as {r!r}: equality of plans must depend on the steps only, not on what the plan recorded while '
+                   f'they were added (the join planner adds a MapReduceStep empty and appends its sub-steps afterwards)', file=ci.file, line=eq.lineno,
+                   witness='plan_query(<join with a model USING partition_size=10>) == QueryPlan(steps=<the same steps>)')
+    ctx.setcount('plan_history_rows', n)
+    ctx.floor('plan_history_rows', 9)
+
+
 def run(ctx):
     ctx.explanation = (
         'Protocol lints, exhaustive over all classes of mindsdb_sql: (1) ASTNode.copy is copy.deepcopy(self) and no AST class '
@@ -319,6 +402,7 @@ def run(ctx):
     all_classes = [ci for lst in model.classes.values() for ci in lst]
     ctx.setcount('classes', len(all_classes))
     check_uniform_attributes(ctx, model)
+    check_plan_histories(ctx, model)
     # equality is computed from text (to_tree + printed SQL, repr of embedded values): no printer / __repr__ / comparison may mention the identity of an object
     # (C20's rule, over the classes' files)
     from . import C20
